@@ -22,6 +22,7 @@ import ClipVerif.Model.BuildPaths
 import ClipVerif.Model.IntersectList
 import ClipVerif.Model.Ring
 import ClipVerif.Model.AelPtr
+import ClipVerif.Model.Minima
 /-
 Correspondence side of the line protocol: `model <name> …` evaluates a hand model, `gen <fn> …`
 evaluates a generated function; both print the result in a canonical form that the harness
@@ -157,6 +158,35 @@ def model (name : String) (ts : Toks) : String :=
       let o := fun (x : Option Nat) => match x with | some v => toString v | none => "-"
       let cells := (List.range n.toNat).map fun i => s!"{o (h.prev i)}/{o (h.next i)}"
       s!"head {o h.head} | {" ".intercalate cells}"
+  | "minima", rest =>
+    -- a history: 1 k (y id)*k = AddPaths bringing k local minima | 0 = an execution
+    let rec minOps : Nat → List Int → List Model.Minima.Op → Option (List Model.Minima.Op)
+      | _, [], acc => some acc.reverse
+      | 0, _, _ => none
+      | f+1, 0 :: r, acc => minOps f r (.exec :: acc)
+      | f+1, 1 :: k :: r, acc =>
+        let rec lms : Nat → List Int → List Model.Minima.LM → Option (List Model.Minima.LM × List Int)
+          | 0, r, a => some (a.reverse, r)
+          | j+1, y :: i :: r, a => lms j r ((y, i.toNat) :: a)
+          | _, _, _ => none
+        match lms k.toNat r [] with
+        | some (ms, r') => minOps f r' (.add ms :: acc)
+        | none => none
+      | _, _, _ => none
+    match minOps rest.length rest [] with
+    | none => "parse-error"
+    | some ops =>
+      let showI := fun (l : List Int) => " ".intercalate (l.map toString)
+      let showN := fun (l : List Nat) => " ".intercalate (l.map toString)
+      let rec minGo : List Model.Minima.Op → Model.Minima.St → List String → List String
+        | [], _, acc => acc.reverse
+        | .add ms :: t, s, acc => minGo t (Model.Minima.add s ms) acc
+        | .exec :: t, s, acc =>
+          let s1 := Model.Minima.reset s
+          let v := Model.Minima.sweep (fun _ => []) (s1.scan.length + 1) s1.minima s1.cur s1.scan
+          minGo t (Model.Minima.clearSolution s1)
+            (s!"m {showN (s1.minima.map (·.2))} ; s {showI s1.scan} ; v {showN (v.map (·.2))}" :: acc)
+      " | ".intercalate (minGo ops {} [])
   | "aelins", n :: rest =>
     -- n resident edges then the newcomer, 13 integers each (the probe sends pairwise distinct edges)
     let rec edges : Nat → List Int → List Model.AelEdge → Option (List Model.AelEdge)
